@@ -11,12 +11,14 @@ RULE = ("(A) the module's add/multiply/privtopub run with its curve constants re
         "prime-order curve y^2=x^3+b over small primes: all point pairs (incl. identity), all "
         "points x all n in -(2N+3)..2N+3, compared with an affine model - every such case is "
         "distinct and counted as non-trivial unless both operands are the identity; (B) real "
-        "constants, Hypothesis: non-trivial = P=Q / P=-Q collision, identity operand, n<0 or n>=N")
+        "constants, Hypothesis: non-trivial = P=Q / P=-Q collision, Q = +-lambda*P (same or opposite y, different x), "
+        "identity operand, n<0 or n>=N, n related to the endomorphism eigenvalue (lambda, lambda+1, 2(lambda+1), 1-lambda ...)")
 ASSUMPTIONS = ["affine model in vf/model/ec.py; SEC 2 constants typed into vf/model/params.py",
                "tiny-curve substitution replaces module attributes P,N,A,B,Gx,Gy,G at run time"]
 ENGINE = "exhaustive enumeration on substituted tiny curves + hypothesis on the real curve"
 TECHNIQUE = ("exhaustive enumeration on substituted tiny prime-order curves + property-based testing (Hypothesis) on the real constants against an independent affine model")
 REQUIRED_LABELS = {t: ["B:add:double", "B:add:inverse", "B:add:identity", "B:mul:n<0", "B:mul:n>=N",
+                       "B:add:same_or_opposite_y", "B:mul:endomorphism_related",
                        "A:add:double", "A:add:inverse"] for t in ("quick", "thorough")}
 try:
     from cryptography.hazmat.primitives.asymmetric import ec as _cec
@@ -146,6 +148,8 @@ def o_add(ctx, case):
         ctx.label("B:add:double"); nt_ = True
     elif (a + b) % N == 0:
         ctx.label("B:add:inverse"); nt_ = True
+    elif Pm[1] == Qm[1] or (Pm[1] + Qm[1]) % P == 0:
+        ctx.label("B:add:same_or_opposite_y"); nt_ = True
     else:
         ctx.label("B:add:generic")
     if nt_:
@@ -182,6 +186,8 @@ def o_mul(ctx, case):
         ctx.label("B:mul:n>=N"); nt_ = True
     elif n in (0, 1, 2, N - 1):
         ctx.label("B:mul:boundary"); nt_ = True
+    elif n in ENDO:
+        ctx.label("B:mul:endomorphism_related"); nt_ = True
     else:
         ctx.label("B:mul:in_range")
     if a == 0:
@@ -222,8 +228,10 @@ ORACLES = {"tiny": o_tiny, "add": o_add, "assoc": o_assoc, "mul": o_mul, "priv":
            "consts": o_consts}
 
 KS = scalar_in(0, N, extra=(2, 3, N - 2))
+LAMS = nt.cube_roots_of_unity(N)
+ENDO = nt.endo_scalars(N)
 NS = st.one_of(st.sampled_from([0, 1, 2, 3, N - 1, N, N + 1, 2 * N, 2 * N + 5, -1, -2, -N, -N - 1,
-                                -2 * N - 3, 2 ** 256, 2 ** 512 - 1]),
+                                -2 * N - 3, 2 ** 256, 2 ** 512 - 1]), st.sampled_from(ENDO),
                st.integers(-2 ** 512, 2 ** 512), st.integers(0, N - 1), st.integers(-N, 3 * N),
                st.integers(-100, 100))
 
@@ -231,8 +239,11 @@ NS = st.one_of(st.sampled_from([0, 1, 2, 3, N - 1, N, N + 1, 2 * N, 2 * N + 5, -
 @st.composite
 def s_pair(draw):
     a = draw(KS)
-    kind = draw(st.sampled_from(["free", "free", "same", "inverse", "identity", "near"]))
-    if kind == "same":
+    kind = draw(st.sampled_from(["free", "free", "same", "inverse", "identity", "near", "endo"]))
+    if kind == "endo":
+        # Q = +-lambda * P: the image of P under (x, y) -> (beta x, +-y); same or opposite y, different x
+        b = draw(st.sampled_from([1, -1])) * draw(st.sampled_from(LAMS)) * a % N
+    elif kind == "same":
         b = a
     elif kind == "inverse":
         b = (N - a) % N
@@ -253,6 +264,8 @@ def t_real(ctx, shard, n):
     ex_add = [{"a": a, "b": b} for a in (0, 1, 2, N - 1) for b in (0, 1, 2, N - 1, N - 2)]
     ex_mul = [{"a": a, "n": k} for a in (0, 1, 5) for k in
               (0, 1, 2, 3, N - 1, N, N + 1, 2 * N + 7, -1, -7, -N, 2 ** 512 - 1)]
+    ex_mul += [{"a": 1 + i % 3, "n": k} for i, k in enumerate(ENDO)]
+    ex_add += [{"a": a, "b": sg * lam * a % N} for a in (1, 2, 77) for lam in LAMS for sg in (1, -1)]
     drive(ctx, f"add{shard}", s_pair(), lambda c: o_add(ctx, c), n, ex_add if shard == 0 else ())
     drive(ctx, f"assoc{shard}", st.fixed_dictionaries({"a": KS, "b": KS, "c": KS}),
           lambda c: o_assoc(ctx, c), n // 3,
